@@ -71,6 +71,29 @@ CHECKS = {
          'Static: the 12 predefined classes and the 11 PHH variant codes x bet sizes x 2-4 players x modes are compared field by field (deck as a set, hand types, per street burn / hole facing / board cards / draw / opening rule / small-big bet / cap, structure, forced-bet kind) with a table written from the rules of the games. Dynamic: every history within k deviations on two stack vectors per variant plus heads-up raise wars to depth 6 is explored in lock-step with the betting-rules automaton configured from the table, so a variant wired with the wrong structure, bet size or cap accepts amounts the table forbids; split games must push a high and a low half on scripted decks.',
          'The table is the trusted base (refs/variants.py); deviation-bounded dynamic part.',
          'DESIGN.md section 4 C11'),
+ 'C04': ('model_checking',
+         'exhaustive enumeration of the complete input space (every card subset of the deck of the admissible sizes, per hand type) through the real constructor, lookup and comparison operators, against an independent rule-based evaluator; order isomorphism decided over all reference classes',
+         'All 2,598,960 five-card subsets of the 52-card deck for each of the 8 five-card hand classes, all 294,203 subsets of size 1-4 for both badugi classes, every card for Kuhn: constructor accepts exactly the valid hands; every hand carries the label the rules give it, compares ==, not <, hash-equal with the canonical representative of its reference class; every reference class has one entry index and indices are strictly monotone in strength (so every pair of hands is decided at class level); class representatives are compared pairwise with the real <, ==, >, <=, >=, != (quick: 48-rung ladder + 4 nearest neighbours per class; thorough: all ordered pairs). Wrong sizes, unknown ranks/suits and foreign ranks must be rejected.',
+         'Tuples with a repeated card are not card sets (counted, not judged). KeyError for unknown ranks would be counted as rejection. Trusts refs/handeval.py (written from the rules, no pokerkit import).',
+         'DESIGN.md section 4 C04'),
+ 'C05': ('model_checking',
+         'exhaustive enumeration of every (hole, board) pair over structured sub-decks per hand type and admissible shape through the real from_game/from_game_or_none and real States (get_hand/get_up_hand), against a brute-force maximum over the combinations the composition rule allows',
+         'For each of the 11 hand classes, every disjoint (hole, board) over 2-3 structured sub-decks (10-13 cards: wheels, broadway, straight flushes, quads, full house vs flush, qualifying / non-qualifying / paired lows, rainbow / suited / paired badugis) with 0-7 hole and 0-5 board cards: the reported hand is a legal combination under the composition rule (any five; exactly two hole + three board for Omaha and Omaha-8; both hole + three board for Greek; largest rainbow-unpaired subset for badugi), has the strength of the brute-force maximum, and None is reported exactly when no legal combination is a hand; from_game raises ValueError exactly then. Ten game shapes are also dealt on real States and get_hand / get_up_hand compared.',
+         'Sub-decks, not the 52-card product; Greek hold\'em judged for two hole cards only. Evaluator = refs/handeval.py (decided against the implementation for all hands by C04).',
+         'DESIGN.md section 4 C05'),
+
+ 'C19': ('model_checking',
+         'exhaustive enumeration of representation grids (every form of every small value vector, every card text/container form, every layout of a validity grid, every amount x divisor / rake parameter) through the real clean_values, Card.parse/clean, State constructor, game factories, State operations, divmod and rake, against the explicit form / an independent validity predicate / the sum identity',
+         'Value vectors in {0..3}^n (n<=4) in 10-13 forms (scalar, list, tuple, generator, iterator, trailing zeros dropped, over-long, mappings with positive / negative / mixed keys, with and without zeros, any insertion order) through clean_values and as antes / blinds / stacks of real States and of 5 game factories (equal states field by field); 53 cards x text forms incl. 10 for T and unknown rank/suit, all ordered pairs in 11 container/separator forms, triples over a sub-deck, and as arguments of deal_hole / burn_card / deal_board / stand_pat_or_discard; the full layout grid antes {-1,0,1}^n x blinds {0,1,2,-2}^n x bring-in {0,1,2} x stacks {0,1,5}^n x n {1,2,3} x boards {0,1} (+ scalar grid with n=0..3) against the documented validity predicate, rejections must be ValueError; divmod on 0..60 x 1..6 and rake x percentages x caps for int / Fraction / float / Decimal add up.',
+         'Mapping keys outside [-n, n) are not judged; float/Decimal sums compared to 1e-9.',
+         'DESIGN.md section 4 C19'),
+
+ 'C18': ('model_checking',
+         'exhaustive enumeration of the notation grid, of every full and partial deal of small-deck families with the Monte-Carlo sampler replaced by an enumerator that returns every completion exactly once (so the real code computes the exact mean), and of payout x chip grids; compared with an independent range expander, exact Fraction showdown shares, the real State played to showdown, and exact Malmuth-Harville ICM',
+         'Ranges: all ordered rank pairs of the standard and short-deck orders x {XY, XYs, XYo, XY+, XYs+, XYo+} and every equal-gap interval with each suffix against an independent expander (6 / 4 / 12 / 16 combinations, XY = XYs disjoint-union XYo, elements are two distinct real cards), 15x15 token pairs x 8 separator forms. Equities: 8 (hand types, deck, shape) families incl. Omaha hi-lo, stud hi-lo, badugi, Kuhn and harness high/low types with 2-4 players: every full deal (equities non-negative, sum to one, independent of sample_count, equal to the rules\' shares and to the payoffs of a real State dealt those cards) and every partial deal with <= 3 unknown cards with every completion enumerated through the owned sampler (mean equals the exact Fraction equity), multi-selection ranges with conflicting selections, calculate_hand_strength. ICM: all non-increasing payouts over a grid x chips {1..6}^n, n<=4: non-negative, sums to the prize pool, ordered as the chips, equals exact Malmuth-Harville.',
+         'Small decks (6-11 cards); uniform weighting of valid selections is the library\'s semantics; deals where nobody can make any hand are not judged.',
+         'DESIGN.md section 4 C18'),
+
 }
 
 def main():
